@@ -199,6 +199,7 @@ class Explorer:
         self.call_value = call_value  # callable(fi, call node, resolved funcs) -> expression standing for the call's value | None
         self.watch = watch  # predicate on syntax nodes: an "expr" event with the substituted node is emitted for each match
         self._count = 0
+        self._comp_of: dict = {}
         self._tmp = 0
         self._stack: list[FuncInfo] = []
 
@@ -603,6 +604,7 @@ class Explorer:
         for e in exprs:
             if e is not None:
                 calls.extend(calls_in_order(e))
+                self._map_comprehensions(e, ())
         if self.watch is not None:
             watched = [n for e in exprs if e is not None for n in ast.walk(e) if self.watch(n)]
             if watched:
@@ -614,6 +616,40 @@ class Explorer:
                     return inner(s2)
 
         yield from self._calls_from(calls, 0, st, fi, depth, k, then)
+
+    def _map_comprehensions(self, n: ast.AST, gens: tuple) -> None:
+        """remember for every call inside a comprehension the generators whose targets are in scope"""
+        if isinstance(n, (ast.ListComp, ast.SetComp, ast.GeneratorExp, ast.DictComp)):
+            acc = gens
+            for g in n.generators:
+                self._map_comprehensions(g.iter, acc)
+                acc = acc + (g,)
+                for c in g.ifs:
+                    self._map_comprehensions(c, acc)
+            for part in ([n.key, n.value] if isinstance(n, ast.DictComp) else [n.elt]):
+                self._map_comprehensions(part, acc)
+            return
+        if isinstance(n, ast.Call) and gens:
+            self._comp_of[id(n)] = gens
+        for ch in ast.iter_child_nodes(n):
+            self._map_comprehensions(ch, gens)
+
+    def _in_comprehension(self, c: ast.Call, st: _State, fi, depth) -> _State:
+        """a throw-away state in which the targets of the comprehensions enclosing the call are bound to
+        ELEM(<iterable>) (so that arguments taken from the loop variable keep their origin)"""
+        gens = self._comp_of.get(id(c))
+        if not gens:
+            return st
+        tmp = _State()
+        tmp.store = dict(st.store)
+        tmp.repl = st.repl
+        tmp.known = st.known
+        tmp.conds = st.conds
+        tmp.loops = st.loops
+        for g in gens:
+            it = self.subst(g.iter, tmp)
+            self._bind(g.target, ast.Call(func=ast.Name(id=ELEM, ctx=ast.Load()), args=[it], keywords=[]), tmp, fi, depth, g)
+        return tmp
 
     def _calls_from(self, calls, i, st, fi, depth, k, then):
         while i < len(calls):
@@ -627,7 +663,7 @@ class Explorer:
                     funcs = []
                 if len(funcs) == 1 and funcs[0] not in self._stack and funcs[0] is not fi and self.inline(fi, c, funcs[0]):
                     targets = funcs[0]
-            csub = self.subst(c, st)
+            csub = self.subst(c, self._in_comprehension(c, st, fi, depth))
             if self.call_value is not None:
                 try:
                     fs = self.prog.resolve_call(fi, c).funcs()
@@ -1225,4 +1261,23 @@ def raising_guards(paths: list[SymPath], p: SymPath) -> list[tuple[ast.AST, bool
                 sib.append(q)
         if sib and all(q.outcome == "raise" for q in sib):
             out.append((t, pol, node))
+    return out
+
+
+def explore_with_nested(prog: Program, fi: FuncInfo, _depth: int = 0, **kw) -> list[tuple[FuncInfo, list[SymPath]]]:
+    """paths of fi and of the functions defined inside it (explored with the closure environment
+    that holds where they are defined)"""
+    binding = kw.pop("binding", None)
+    paths = Explorer(prog, **kw).run(fi, binding)
+    out = [(fi, paths)]
+    seen = set()
+    if _depth < 2:
+        for p in paths:
+            for ev in p.events:
+                if ev.kind == "def" and id(ev.node) not in seen:
+                    seen.add(id(ev.node))
+                    inner = next((g for g in fi.module.all_funcs if g.node is ev.node), None)
+                    if inner is not None:
+                        b = {k: v for k, v in (ev.store or {}).items() if k not in inner.param_names()}
+                        out.extend(explore_with_nested(prog, inner, _depth + 1, binding=b, **kw))
     return out
